@@ -45,7 +45,8 @@ THEOREMS = [P + n for n in (
     'coded_signal_reproduces', 'eig_clamp_nonneg', 'eig_clamp_error', 'chol_eigh_gram_real',
     'coded_signal_reproduces_real', 'general_design_dataset', 'row_center_sums_zero', 'draw_shapes',
     'inputs_not_written', 'no_module_state', 'call_stateless', 'session_calls_independent',
-    'session_calls_only', 'specSession_append', 'session_call_reproduces')]
+    'session_calls_only', 'specSession_append', 'session_call_reproduces',
+    'signal_branches_draw', 'draw_plan_for_branch', 'value_drawn_eq', 'fresh_signal_exact')]
 RULE = ('cases from one PRNG: model RDM = squared distances of an integer point set (3-7 conditions, '
         'incl. collinear / duplicated / low-rank sets; fixed, weighted, select, interpolate models), channels '
         'n_cond+{0,1,2,5} (a few below n_cond; 30 when every argument is left at its default), 1-4 partitions, '
@@ -54,7 +55,8 @@ RULE = ('cases from one PRNG: model RDM = squared distances of an integer point 
         'matrix / general design matrix (regressor heights != 1, all-zero rest rows, compound rows, random; '
         'C / Fortran / strided / int / bool / float32 layouts), optional noise channel / trial and signal channel '
         'covariance, exact or random signal, same or fresh signal (all four combinations with several '
-        'simulations forced), numpy seed; the malformed stream (3-D cond_vec, wrong covariance shapes); '
+        'simulations forced), numpy seed (12 %: a second seed - by default two calls, like two simulations of one '
+        'call, must get different signals, on the exact branch too); the malformed stream (3-D cond_vec, wrong covariance shapes); '
         'non-trivial = at least 3 conditions; distinct = distinct (points, channels, design, options, seed); '
         'reuse sessions (round 4): 2-5 make_dataset / make_signal / make_design calls in one process on live '
         'objects that are handed in again — models of one class, name and theta with different RDMs, one model '
@@ -77,6 +79,9 @@ BRANCHES = ['design:only', 'cond:design', 'cond:labels', 'cond:matrix', 'cond:ge
             'signalcov:nsim>1', 'noisecov:trial:nsim>1', 'noisecov:trial:zero-noise',
             'own:met:eq', 'own:met:degenerate', 'factor:residual', 'factor:residual:eq',
             'mk:interp_none', 'stack:vec', 'stack:rdms', 'stack:mat',
+            # round 7: a fresh signal on the exact branch
+            'exact:fresh:n_sim>1', 'exact:fresh:n_sim>1:nch-eq', 'exact:fresh:two-seeds', 'exact:same-signal',
+            'random:fresh:two-seeds',
             # reuse sessions (round 4)
             'session:same-name', 'session:same-model', 'session:edit-rdm', 'session:edit-rdm:inplace',
             'session:edit-rdm:rebind', 'session:reuse-cond', 'session:reuse-cov', 'session:reuse-theta',
@@ -268,6 +273,9 @@ def _one(rng, force=None):
         if case['noise'] == 0.0 and rng.random() < 0.6:
             case['noise'] = 1.0
     case['seed'] = rng.randint(0, 2 ** 31 - 1)
+    if force.get('_seed2') or rng.random() < 0.12:
+        # a second call under another numpy seed (oracle: by default the signal differs between the two)
+        case['seed2'] = (case['seed'] + 1 + rng.randint(0, 2 ** 30)) % (2 ** 31)
     # how the scalar arguments are passed: python floats, python ints (where integral), numpy scalars
     case['argform'] = rng.choice(['float', 'float', 'int', 'np'])
     case.update({k: v for k, v in force.items() if k not in ('mkind', 'n_cond', 'zkind')
@@ -335,6 +343,14 @@ def generate(rng, tier):
         {'n_sim': 3, 'exact': True, 'same': True, 'noise': 0.0, 'scc': None},
         {'n_sim': 3, 'exact': True, 'same': False, 'noise': 0.0, 'scc': None},
         {'n_sim': 2, 'exact': False, 'same': True}, {'n_sim': 2, 'exact': False, 'same': False},
+        # round 7: a fresh signal on the exact branch (several simulations; two seeds; with noise; n_ch = n_cond)
+        {'n_sim': 2, 'exact': True, 'same': False, 'noise': 0.0, 'scc': None, 'mkind': 'generic',
+         'cond_mode': 'design', 'ncc': None, '_seed2': True},
+        {'n_sim': 3, 'exact': True, 'same': False, 'noise': 1.0, 'mkind': 'generic', 'cond_mode': 'labels'},
+        {'n_sim': 2, 'exact': True, 'same': False, 'noise': 0.0, 'scc': None, '_nch_eq': True, 'mkind': 'generic'},
+        {'n_sim': 1, 'exact': True, 'same': False, 'noise': 0.0, 'scc': None, 'mkind': 'generic', '_seed2': True},
+        {'n_sim': 2, 'exact': True, 'same': True, 'noise': 0.5, 'mkind': 'generic', '_seed2': True},
+        {'n_sim': 1, 'exact': False, 'same': False, '_seed2': True},
         {'n_sim': 2, '_scc': True, 'same': True}, {'n_sim': 2, '_scc': True, 'same': False},
         {'n_sim': 2, '_nct': True, 'noise': 1.0}, {'n_sim': 1, '_nct': True, 'noise': 0.0, 'exact': True},
         # as many channels as conditions, degenerate model
@@ -364,8 +380,16 @@ def search(rng, tier):
         if k % 4 == 0:
             # general design matrices (heights, rest rows, compound rows), round-robin over the kinds
             f = dict(f, cond_mode='general', zkind=ZKINDS[(k // 4) % len(ZKINDS)])
-        elif k % 9 == 0:
-            f = dict(f, n_sim=rng.choice([2, 3]), same=rng.random() < 0.6, signal=rng.choice([0.25, 2.5, 4.0]))
+        elif k % 5 == 0:
+            # several simulations / two seeds: same signal, fresh exact signal, fresh exact signal under two seeds
+            # (k % 9 used to sit here: unreachable behind k % 3)
+            j = (k // 5) % 3
+            f = dict(f, n_sim=rng.choice([2, 3]), same=(j == 1), signal=rng.choice([0.25, 2.5, 4.0]))
+            if j != 1:
+                f['exact'] = True
+            if j == 2:
+                f['_seed2'] = True
+                f['n_sim'] = rng.choice([1, 2])
         c = _one(rng, f)
         if c['n_ch'] < len(c['pts']) and rng.random() < 0.8:
             c['n_ch'] = len(c['pts']) + rng.choice([0, 1, 2])
@@ -797,7 +821,7 @@ def _requests_single(case, key):
     dataset = {
         'op': 'c18.dataset', 'n_cond': n, 'n_ch': case['n_ch'], 'n_sim': case['n_sim'],
         'signal': fbits(case['signal']), 'noise': fbits(case['noise']), 'same': case['same'],
-        'cond': cond, 'signals': [deep(fbits, s) for s in rec['signals']],
+        'exact': bool(case['exact']), 'cond': cond, 'signals': [deep(fbits, s) for s in rec['signals']],
         'noises': [deep(fbits, ss.norm.ppf(u)) for u in rec['noise_u']],
         'chol_c': chol(case['ncc']), 'chol_t': chol(case['nct']),
         'model': _model_name(case), 'theta': None if th is None else deep(fbits, th)}
@@ -1100,6 +1124,19 @@ def features(case, impl):
             b.append('noisecov:trial:nsim>1')
     if case['nct'] is not None and _claims_any(case):
         b.append('noisecov:trial:zero-noise')
+    # round 7: freshness judged on the exact branch (several simulations of one call; two calls under two seeds)
+    if not case.get('bad') and case['exact']:
+        judged = _exact_fresh_judged(case) and case['signal'] != 0
+        if case['n_sim'] > 1 and case['same']:
+            b.append('exact:same-signal')
+        if case['n_sim'] > 1 and not case['same'] and judged:
+            b.append('exact:fresh:n_sim>1')
+            if case['n_ch'] == n:
+                b.append('exact:fresh:n_sim>1:nch-eq')
+        if case.get('seed2') is not None and not case['same'] and judged:
+            b.append('exact:fresh:two-seeds')
+    if not case.get('bad') and not case['exact'] and case.get('seed2') is not None and not case['same']:
+        b.append('random:fresh:two-seeds')
     # whether the model's own factor instances met their contract is known once compare() ran
     if _OWN.get(_key(case)):
         b.append('own:met')
@@ -1263,6 +1300,29 @@ def _oracle_single(case, objs=None):
                 if float(np.max(np.abs(mr[0]))) > 1e-9 and np.all(np.abs(mr[k] - mr[0]) <= 1e-12):
                     return _fail(f'default: simulation {k} reuses the signal of simulation 0',
                                  'identical noise-free data', 'a fresh signal', failure='fresh_signal')
+            # round 7: ... and on the exact branch itself: the orthonormal frame comes from the simulation's
+            # own draw block, so the noise-free data of two simulations differ (each still reproduces the RDM)
+            if case['exact'] and _exact_fresh_judged(case) and float(np.max(np.abs(m0[0]))) > 1e-9:
+                for k in range(1, len(m0)):
+                    if np.all(np.abs(m0[k] - m0[0]) <= 1e-9 * sc):
+                        return _fail(f'default (use_same_signal=False) with use_exact_signal: simulation {k} has '
+                                     f'the signal of simulation 0 (no fresh exact signal is drawn)',
+                                     'identical noise-free data', 'a fresh signal', failure='exact_fresh_signal',
+                                     n_sim=case['n_sim'])
+    # two calls under different numpy seeds: by default the signal is a function of the draws, so the
+    # noise-free data of the first simulation differ (random branch: model RDM not identically zero; exact
+    # branch: whenever the orthonormal frame has any freedom, see _exact_fresh_judged)
+    if case.get('seed2') is not None and case['seed2'] != case['seed'] and not case['same'] and max(abs(float(v)) for v in dvec) > 0 \
+            and (not case['exact'] or _exact_fresh_judged(case)) and float(np.max(np.abs(m0[0]))) > 1e-9:
+        dss2, _ = _call(dict(case, seed=case['seed2']), noise=0.0, objs=objs)
+        m2 = [np.asarray(ds.measurements, dtype=float) for ds in dss2]
+        sc = max(1.0, float(np.max(np.abs(m0[0]))))
+        if m2[0].shape == m0[0].shape and np.all(np.abs(m2[0] - m0[0]) <= 1e-9 * sc):
+            return _fail(f"two calls under numpy seeds {case['seed']} and {case['seed2']} "
+                         f"({'exact' if case['exact'] else 'random'} signal, use_same_signal=False) give the "
+                         f'same signal: it does not depend on the random draws',
+                         'identical noise-free data', 'a fresh signal',
+                         failure='exact_fresh_signal' if case['exact'] else 'fresh_signal', two_seeds=True)
     # the loop through calc_rdm: every simulated dataset with a condition vector can be passed to
     # calc_rdm by condition; under the property's conditions the result is signal * model RDM
     labels = _labels_of(case)
@@ -1335,6 +1395,31 @@ def _oracle_single(case, objs=None):
     return None
 
 
+def _exact_fresh_judged(case):
+    """whether two exact signals made from different draw blocks necessarily differ (with probability one).
+    The exact signal is  chol_G @ W  with W = sqrt(w) * Q^T, Q the orthonormal factor of the centred
+    n_cond x w draw (w = max(n_channel, n_cond)); only the rows of W that belong to positive eigenvalues of G
+    enter (the last r rows, r = rank).  The centred rows span a (w-1)-dimensional space, so for w > n_cond
+    every row of W is a continuous random unit vector (w - 1 >= 2).  For w = n_cond the LAST row of W is
+    forced to +-ones (the only direction left), the row before it is continuous as soon as n_cond >= 3: the
+    signal is then a continuous function of the draw iff G has at least two positive eigenvalues.  (With
+    n_cond = n_channel = 2, or a rank-1 model RDM with n_channel <= n_cond, the correct code legitimately
+    returns one of two frames — not judged.)"""
+    if case.get('bad'):
+        return False
+    n = len(case['pts'])
+    dvec = [float(v) for v in _expected_dvec(case)]
+    if not dvec or max(abs(v) for v in dvec) == 0:
+        return False
+    if case['n_ch'] > n:
+        return n >= 2
+    if n < 3:
+        return False
+    g = np.array([[float(x) for x in r] for r in _gram_exact(dvec, n)])
+    ev = np.linalg.eigvalsh(g)
+    return int(np.sum(ev > 1e-9 * max(float(np.max(np.abs(ev))), 1e-300))) >= 2
+
+
 def _gram_exact(dvec, n):
     """G = -1/2 H D H in exact rational arithmetic (plain loops) from the condensed model RDM"""
     d = [[F(0)] * n for _ in range(n)]
@@ -1365,6 +1450,10 @@ def shrink(case, still_fails):
         except Exception:  # noqa: BLE001
             pass
         return False
+    if cur.get('seed2') is not None:
+        attempt({k: v for k, v in cur.items() if k != 'seed2'})
+    if cur.get('n_sim', 1) > 2:
+        attempt(dict(cur, n_sim=2))
     for upd in ({'n_sim': 1}, {'n_part': 1}, {'ncc': None}, {'nct': None}, {'same': False},
                 {'signal': 1.0}, {'seed': 0}):
         if any(cur.get(k) != v for k, v in upd.items()):
